@@ -68,6 +68,12 @@ func C10(v *View) []Violation {
 	}
 	releases := map[string]int{}
 	for _, c := range v.Rec.Calls {
+		if c.Name == "" && c.Verb != "list" {
+			continue // no name: the typed client rejects such a request before it is sent (seen after a failed revision Update, whose empty result the inherited retry code adopts)
+		}
+		if c.NS != set.Namespace {
+			out = append(out, viol("C10", "call-outside-namespace", "%s is issued in namespace %q, the set lives in %q", c.ID, c.NS, set.Namespace))
+		}
 		if !c.IsWrite() {
 			continue
 		}
@@ -80,7 +86,7 @@ func C10(v *View) []Violation {
 			if c.Verb == "create" {
 				continue
 			}
-			cached := v.Rec.Before.Cache.Pods[c.Name]
+			cached := v.Rec.Before.Cache.Pods[c.Key]
 			switch {
 			case isAdoptPatch(c):
 				why := ""
